@@ -7,4 +7,5 @@ let () =
   | _ :: "layout" :: _ -> Cmd_layout.run ()
   | _ :: "recon" :: _ -> Cmd_recon.run ()
   | _ :: "session" :: rest -> Cmd_session.run rest
+  | _ :: "gsession" :: _ -> Cmd_session.grun ()
   | _ -> prerr_endline "usage: fvm <layout|...>"; exit 2
